@@ -467,6 +467,9 @@ def rule_x(repo, run):
     from sa.report import import_rules
     import_rules(run, R, c05, repo, {"C05.R11"}, only=lambda c: c.startswith("wrapf."))
     import_rules(run, R, c18, repo, {"C18.R2"}, only=lambda c: "wrap_functions" in c)
+    # name scopes (F_name_scope / C_name_scope) follow the namespace's own flatten options (C14.R8)
+    from checks import c14
+    import_rules(run, R, c14, repo, {"C14.R8"}, only=lambda c: c.startswith("ast."))
 
 
 def run(repo, run, tier):
